@@ -130,11 +130,21 @@ func runFilter(cfg Cfg) {
 		default:
 			target = ls + r.Intn(ls)
 		}
+		minOnes := []int{1, 9, 17, 24}[r.Intn(4)]
 		pool := make([]pfx, 0, target)
 		for len(pool) < target {
-			ones := 1 + r.Intn(32)
-			if r.Chance(3) {
+			// minOnes: histories with only long prefixes keep the covered space sparse, so that exact
+			// boundary probes are decided by ONE range; histories with short prefixes exercise nesting
+			ones := minOnes + r.Intn(33-minOnes)
+			switch c := r.Intn(100); {
+			case c < 3 && minOnes == 1:
 				ones = 0
+			case c < 13:
+				ones = 32 // host routes: the last map / the all-ones mask
+			case c < 18:
+				ones = 31
+			case c < 24 && minOnes == 1:
+				ones = 1 + r.Intn(8) // very short prefixes
 			}
 			var a uint32
 			if r.Chance(70) {
